@@ -792,7 +792,7 @@ fn c15_merge_step_structural() {
     assert!(sum == total, "centroid weights do not sum to total_weight");
     assert!(d.min == min && d.max == max, "min / max are no longer the exact extremes");
     kani::cover!(n == 4);
-    kani::cover!(n == 2);
+    kani::cover!(n == 3); // (the first and the last input are never merged: 3 is the minimum for 4 inputs)
     core::mem::forget(d);
 }
 
